@@ -13,6 +13,18 @@ type operatorHandler func(d *dataTreeNavigator, context Context, expressionNode 
 type compoundCalculation func(lhs *ExpressionNode, rhs *ExpressionNode) *ExpressionNode
 
 func compoundAssignFunction(d *dataTreeNavigator, context Context, expressionNode *ExpressionNode, calculation compoundCalculation) (Context, error) {
+	if context.MatchingNodes != nil && context.MatchingNodes.Len() > 1 {
+		// several context nodes (.items[] | .x += .y): each of them is updated with what the right hand side
+		// yields for IT, not with what it yields for the last of them
+		for el := context.MatchingNodes.Front(); el != nil; el = el.Next() {
+			_, err := compoundAssignFunction(d, context.SingleChildContext(el.Value.(*CandidateNode)), expressionNode, calculation)
+			if err != nil {
+				return Context{}, err
+			}
+		}
+		return context, nil
+	}
+
 	lhs, err := d.GetMatchingNodes(context, expressionNode.LHS)
 	if err != nil {
 		return Context{}, err
